@@ -291,4 +291,6 @@ Definition stage_tag (s : stage_code) : N :=
   | SThrottle _ _ => 13 | SFork _ _ _ => 14 | SSeq _ => 15 | SStdErr => 16
   end%N.
 Definition digest (cs : list case) : list (N * N) :=
-  map (fun t => (t, count_where (fun c => N.eqb (stage_tag (stage (pc c))) t) cs)) (map N.of_nat (seq 1 15)).
+  map (fun t => (t, count_where (fun c => N.eqb (stage_tag (stage (pc c))) t) cs)) (map N.of_nat (seq 1 16)) ++
+  (* tag 100: traces on which the acceptance exploration ran out of fuel before finding a run (inconclusive) *)
+  [(100%N, count_where (fun c => negb (N.eqb (sched c) 9) && inconclusive (pc c)) cs)].
